@@ -360,6 +360,16 @@ def x7_shims(text, log):
         return "vx_enumerate(%s.iter())" % m.group(1)
     text = re.sub(r"\b((?:self\.)?[a-z_][a-z0-9_]*)\.iter\(\)\.enumerate\(\)", enum, text)
 
+    def langs(m):
+        log.add("X7:vx_languages")
+        return "vx_languages()"
+    text = re.sub(r"\bLANGUAGES\b(?=\.iter\(\)|\.binary_search|\[)", langs, text)
+
+    def splitn(m):
+        log.add("X7:vx_splitn2")
+        return "vx_splitn2(%s, %s)" % (m.group(1), m.group(2))
+    text = re.sub(r"\b([a-z_][a-z0-9_]*)\.splitn\(2, ('.')\)\.collect\(\)", splitn, text)
+
     def u16(m):
         log.add("X7:vx_utf16_count")
         return "vx_utf16_count(&%s)" % m.group(1)
@@ -427,6 +437,18 @@ def x3b_by_value_writer(text, log):
     return t2
 
 
+def x5d_for_copy_tuple(text, log):
+    """`for &(a, b, c) in e {` -> `for vx_e in e { let a = vx_e.0; let b = vx_e.1; let c = vx_e.2;`
+    (all fields Copy; the reference pattern is deref-then-destructure)"""
+    def f(m):
+        names = [x.strip() for x in m.group(1).split(",")]
+        log.add("X5:for-&(copy tuple)")
+        v = "vx_e%d" % len(names)
+        binds = " ".join("let %s = %s.%d;" % (n, v, i) for i, n in enumerate(names))
+        return "for %s in %s {\n                %s" % (v, m.group(2), binds)
+    return re.sub(r"for &\(([a-z_][a-z0-9_]*(?:, [a-z_][a-z0-9_]*)+)\) in ([^{]+?)\s*\{", f, text)
+
+
 def x5c_for_ref_tuple(text, log):
     """`for &(ref a, b) in e {`  ->  `for vx_e in e { let a = &vx_e.0; let b = vx_e.1;`
     (the Rust reference defines the reference pattern as exactly this: deref, then bind
@@ -437,7 +459,18 @@ def x5c_for_ref_tuple(text, log):
     return re.sub(r"for &\(ref ([a-z_][a-z0-9_]*), ([a-z_][a-z0-9_]*)\) in ([^{]+?)\s*\{", f, text)
 
 
+def x1_nopub(text, log):
+    """drop the visibility qualifier of the item (single-file crate: no effect on meaning;
+    needed when a contract mentions spec functions over private types)"""
+    t2 = re.sub(r"^(\s*)pub(?:\s*\([^)]*\))?\s+(fn|const fn)\b", r"\1\2", text, count=1, flags=re.M)
+    if t2 != text:
+        log.add("X1:visibility-dropped")
+    return t2
+
+
 OPTS = {
+    "x5d": x5d_for_copy_tuple,
+    "nopub": x1_nopub,
     "x5c": x5c_for_ref_tuple,
     "x3b": x3b_by_value_writer,
     "x5b": x5b_ref_enum_pattern,
